@@ -371,6 +371,7 @@ static void payload_from_seed(uint32_t pseed, size_t nbytes, uint8_t* out)
 
 extern "C" int64_t GetFreeSendBufferBits(struct utcp_connection* fd);
 extern "C" bool is_connected(struct utcp_connection* fd);
+extern "C" int WriteBitsToSendBuffer(struct utcp_connection* fd, const uint8_t* Bits, const int32_t SizeInBits);
 
 // ---------------------------------------------------------------- structure-aware re-encoding of a handshake datagram
 struct HsFields
@@ -865,6 +866,24 @@ int main(int argc, char** argv)
 			is >> id;
 			if (HConn* c = get_conn(id))
 				emit("ret %d %d", c->get_fd()->bClose ? 1 : 0, (int)c->get_fd()->CloseReason);
+		}
+		else if (op == "inject") // inject <id> <nbits> <hex>: arbitrary bits appended to the send buffer (they leave in a genuine packet)
+		{
+			int id;
+			long nbits;
+			std::string hex;
+			is >> id >> nbits >> hex;
+			Bytes d;
+			if (HConn* c = get_conn(id))
+			{
+				if (hex2bytes(hex, d) && nbits >= 0 && (size_t)nbits <= d.size() * 8)
+				{
+					d.resize(d.size() + 8, 0);
+					emit("ret %d", (int)WriteBitsToSendBuffer(c->get_fd(), d.data(), (int32_t)nbits));
+				}
+				else
+					emit("ret none");
+			}
 		}
 		else if (op == "chans") // open-channel table: index:bClose:NumOutRec:NumInRec, in table order
 		{
